@@ -720,3 +720,176 @@ def ac8_outputs_not_on_ctx(fc: FnCls, R: RuleResult):
     if bad == 0:
         R.ok(fw.fq, "%s.forward: %d ctx attribute stores, none aliases a returned output %s" % (fc.name, n, sorted(returned)))
     return n
+
+
+# ------------------------------------------------------------------------------------------ families (AC6f)
+class Families:
+    """For Functions whose *rest carries several (explicit, object) parameter groups - one per user function -
+    determine which forward names belong to which group ("family")."""
+
+    def __init__(self, fc: FnCls):
+        self.fc = fc
+        self.layout = Layout(fc)
+        segs = [s[0] for s in self.layout.segments]
+        self.nfam = max(1, len(segs) // 2)
+        self.seg_family: Dict[str, int] = {}
+        for i, s in enumerate(segs):
+            self.seg_family[s] = min(i // 2, self.nfam - 1)
+        self.slot_family: Dict[str, int] = {}
+        slots = self.layout.count_slots()
+        for i, sl in enumerate(slots):
+            self.slot_family[sl] = self.seg_family[segs[i]] if i < len(segs) else 0
+        # function parameter of each family: co-occurs with the family's explicit segment in one call of forward
+        self.func_param: Dict[int, str] = {}
+        fixed = set(fc.fixed)
+        for c in own_nodes(fc.forward.node):
+            if not isinstance(c, ast.Call):
+                continue
+            argnames = [a.id for a in c.args if isinstance(a, ast.Name)]
+            if isinstance(c.func, ast.Name):
+                argnames.append(c.func.id)
+            if isinstance(c.func, ast.Attribute) and isinstance(c.func.value, ast.Name):
+                argnames.append(c.func.value.id)
+            fams = {self.seg_family[a] for a in argnames if a in self.seg_family}
+            fps = [a for a in argnames if a in fixed and a not in self.slot_family]
+            if len(fams) == 1 and fps:
+                fam = next(iter(fams))
+                for fp in fps:
+                    if fp not in ("fwd_options", "bck_options", "method", "x0", "xsamples", "wsamples", "y0", "ts", "xl", "xu"):
+                        self.func_param.setdefault(fam, fp)
+
+    def forward_tags(self) -> Dict[str, int]:
+        """forward-local names and ctx attributes -> family (only unambiguous ones)"""
+        fc = self.fc
+        tags: Dict[str, int] = {}
+        for s, k in self.seg_family.items():
+            tags[s] = k
+        for s, k in self.slot_family.items():
+            tags[s] = k
+        for k, fp in self.func_param.items():
+            tags[fp] = k
+        changed = True
+        while changed:
+            changed = False
+            for st in own_nodes(fc.forward.node):
+                if isinstance(st, ast.Assign) and len(st.targets) == 1:
+                    fams = {tags[n] for n in names_loaded(st.value) if n in tags}
+                    for a in ast.walk(st.value):
+                        if isinstance(a, ast.Attribute) and isinstance(a.value, ast.Name) and a.value.id == fc.ctx and ("ctx." + a.attr) in tags:
+                            fams.add(tags["ctx." + a.attr])
+                    if len(fams) != 1:
+                        continue
+                    k = next(iter(fams))
+                    t = st.targets[0]
+                    key = t.id if isinstance(t, ast.Name) else ("ctx." + t.attr if isinstance(t, ast.Attribute) and isinstance(t.value, ast.Name) and t.value.id == fc.ctx else None)
+                    if key and key not in tags:
+                        tags[key] = k
+                        changed = True
+        return tags
+
+
+def ac6_family_consistency(model: Model, fc: FnCls, R: RuleResult) -> int:
+    """(a) at every external .apply site the object-parameter segment of family k belongs to the pure function passed
+    in the slot of family k's function parameter; (b) in backward, no call mixes values of different families."""
+    fam = Families(fc)
+    if fam.nfam < 2:
+        return 0
+    n = 0
+    segs = [s[0] for s in fam.layout.segments]
+    for f, c in apply_sites(model, fc):
+        if f is fc.backward or f.qualname.startswith(fc.backward.qualname + "."):
+            continue
+        roots = _pure_function_names(f)
+        stars = [a for a in c.args if isinstance(a, ast.Starred)]
+        if len(stars) != len(segs):
+            continue
+        for i, st in enumerate(stars):
+            txt = _resolve_star(st.value, f.node)
+            if not txt.endswith(".objparams()"):
+                continue
+            k = fam.seg_family[segs[i]]
+            fp = fam.func_param.get(k)
+            if fp is None:
+                continue
+            slot_arg = c.args[fc.fixed.index(fp)]
+            owner = txt[:-len(".objparams()")]
+            n += 1
+            what = "%s.apply in %s: segment %d (%s) = %s, function slot `%s` = %s" % (fc.name, f.qualname, i, segs[i], txt, fp, ast.unparse(slot_arg))
+            if isinstance(slot_arg, ast.Name) and roots.get(owner) is not None and roots.get(owner) == roots.get(slot_arg.id):
+                R.ok(f.fq, what)
+            else:
+                R.bad(f, enclosing_stmt(c), "the object parameters passed as segment `%s` do not belong to the function passed as `%s`: "
+                      "the two user functions' object tensors are crossed" % (segs[i], fp), what=what)
+    # (b) backward: only *structural* values carry a family (functions, separators, counts, parameter lists);
+    # computed tensors do not (the score-function estimator legitimately combines f and log p)
+    tags = fam.forward_tags()
+    bw = fc.backward
+    mod = bw.module
+    funcs = [g for g in mod.functions.values() if g is bw or g.qualname.startswith(bw.qualname + ".")]
+    btags: Dict[str, int] = {}
+
+    def fam_of(e) -> Optional[int]:
+        if isinstance(e, ast.Name):
+            return btags.get(e.id)
+        if isinstance(e, ast.Attribute) and isinstance(e.value, ast.Name) and e.value.id == fc.bctx:
+            return tags.get("ctx." + e.attr)
+        if isinstance(e, ast.Subscript):
+            base = fam_of(e.value)
+            if base is not None:
+                return base
+            sl = e.slice
+            if isinstance(sl, ast.Slice):
+                def bound_fam(b):
+                    if b is None:
+                        return None
+                    fs = {fam_of(x) for x in ast.walk(b) if isinstance(x, (ast.Name, ast.Attribute))}
+                    fs.discard(None)
+                    return max(fs) if fs else None
+                hi, lo = bound_fam(sl.upper), bound_fam(sl.lower)
+                if hi is not None:
+                    return hi
+                if lo is not None and sl.upper is None:
+                    return min(lo + 1, fam.nfam - 1)
+            return None
+        if isinstance(e, ast.Call) and isinstance(e.func, ast.Attribute) and e.func.attr in ("reconstruct_params", "get_tensor_params"):
+            return fam_of(e.func.value)
+        if isinstance(e, ast.Call) and isinstance(e.func, ast.Name) and e.func.id == "len" and e.args:
+            return fam_of(e.args[0])
+        return None
+    changed = True
+    rounds = 0
+    while changed and rounds < 8:
+        changed = False
+        rounds += 1
+        for g in funcs:
+            for st in own_nodes(g.node):
+                if isinstance(st, ast.Assign) and len(st.targets) == 1 and isinstance(st.targets[0], ast.Name):
+                    k = fam_of(st.value)
+                    nm = st.targets[0].id
+                    if k is not None and nm not in btags:
+                        btags[nm] = k
+                        changed = True
+    for g in funcs:
+        for c in own_nodes(g.node):
+            if not isinstance(c, ast.Call):
+                continue
+            fams = {}
+            cands = list(c.args) + [k.value for k in c.keywords]
+            if isinstance(c.func, ast.Attribute):
+                cands.append(c.func.value)
+            for a in cands:
+                v = a.value if isinstance(a, ast.Starred) else a
+                k = fam_of(v) if isinstance(v, (ast.Name, ast.Attribute)) else None
+                if k is not None:
+                    fams.setdefault(k, []).append(ast.unparse(v))
+            if sum(len(v) for v in fams.values()) >= 2:
+                n += 1
+                what = "%s: %s" % (g.qualname, norm_stmt(c, 90))
+                if len(fams) == 1:
+                    R.ok(g.fq, what + " uses structural values of one function family only")
+                elif ast.unparse(c.func) in ("_mcquad",) or (isinstance(c.func, ast.Attribute) and c.func.attr in ("apply",)):
+                    R.ok(g.fq, what + " (combines both families by design: recursive functional call)")
+                else:
+                    R.bad(g, enclosing_stmt(c), "a call mixes structural values belonging to different user functions (%s): a count / separator / "
+                          "parameter list of one function is applied to the other" % {k: v for k, v in fams.items()}, what=what)
+    return n
